@@ -53,12 +53,17 @@ class PCACtor(taps.Monitor):
             return None
         if X.ndim != 2:
             return None
-        return {"X": X, "centre": bool(centre)}
+        ns = args[3] if len(args) > 3 else kw.get("n_samples")
+        if ns is not None and isinstance(samples, np.ndarray) and ns != len(X):
+            return None       # (n_samples is documented for iterators / sequences of samples; a ready-made matrix is taken whole)
+        return {"X": X if ns is None else X[:ns], "centre": bool(centre)}
 
     def post(self, ctx, st, args, kw, r, exc):
         if exc is None:
             m = args[0]
-            PDATA[id(m)] = (m, [st["X"][: m.n_samples]], st["centre"])
+            if m.n_samples != len(st["X"]):
+                ctx.fail("sample_count_not_conserved", cls=type(m).__name__, mech="pca:constructor", before=0, chunk=int(len(st["X"])), after=int(m.n_samples))
+            PDATA[id(m)] = (m, [st["X"]], st["centre"])
 
 
 class PCAIncrement(taps.Monitor):
@@ -73,7 +78,12 @@ class PCAIncrement(taps.Monitor):
         ff = kw.get("forgetting_factor", args[3] if len(args) > 3 else 1.0)
         if ff != 1.0:
             return None
-        return {"chunk": np.array(data, dtype=np.float64, copy=True), "n": m.n_samples}
+        ns = args[2] if len(args) > 2 else kw.get("n_samples")
+        chunk = np.array(data, dtype=np.float64, copy=True)
+        if ns is not None and isinstance(data, np.ndarray) and ns != len(chunk):
+            PDATA.pop(id(m), None)
+            return None
+        return {"chunk": chunk if ns is None else chunk[:ns], "n": m.n_samples}
 
     def post(self, ctx, st, args, kw, r, exc):
         m = args[0]
@@ -89,7 +99,7 @@ class PCAIncrement(taps.Monitor):
             ctx.fail("sample_count_not_conserved", cls=cls, mech="pca", before=int(st["n"]), chunk=int(len(st["chunk"])), after=int(m.n_samples))
         X = np.vstack(rec[1])
         mean, lam, V = batch_reference(X, centre)
-        scale = max(1.0, float(np.abs(X).max()))
+        scale = max(1e-300, float(np.abs(X).max()))          # relative to the data, whatever their unit
         mech = ("centred" if centre else "uncentred") + (":n<=d" if X.shape[0] <= X.shape[1] else ":n>d")
         e = float(np.abs(m._mean - mean).max())
         if not (e <= 1e-9 * scale):
@@ -159,6 +169,8 @@ def pca_data(rng, n, d, kind):
         X = np.round(X * 40.0)           # counts / pixel sums: integer-valued (handed over as integer arrays by run_pca)
     if kind == "large_values":
         X = X * 10.0 ** rng.uniform(5, 10)                 # raw sensor / pixel-sum magnitudes (menpo's documented cut-off is an absolute 1e-10)
+    if kind == "small_values":
+        X = X * 10.0 ** rng.uniform(-9, -3)                # the same data in a small unit (metres for micrometre-sized things): every cut-off is relative
     if kind == "zero_column":
         X[:, rng.integers(0, d)] = 0.0                     # a feature that is identically zero (masked / padded pixel)
     elif kind == "zero_mean_first_batch":
@@ -179,7 +191,12 @@ def run_pca(ctx, rng, comp, d, centre, kind):
     if kind == "integer_samples":
         # (the constructor centres in place and therefore wants floating point data; increments take the samples as they come)
         chunks = [chunks[0]] + [c.astype(np.int64) for c in chunks[1:]]
-    m = PCAVectorModel(chunks[0].copy(), centre=centre)
+    longer = kind != "integer_samples" and rng.random() < 0.25
+    if longer:
+        # the documented n_samples argument: "take the next n_samples of this sequence" (here the sequence holds more than that)
+        m = PCAVectorModel([row.copy() for row in X[: min(n, comp[0] + int(rng.integers(1, 4)))]], centre=centre, n_samples=comp[0])
+    else:
+        m = PCAVectorModel(chunks[0].copy(), centre=centre)
     # a second model built from the first one's decomposition (an alternative constructor): it may share arrays with it, and
     # must not change when the first model learns more
     sibling = PCAVectorModel.init_from_components(m._components, m._eigenvalues, m._mean, m.n_samples, centre)
@@ -188,7 +205,10 @@ def run_pca(ctx, rng, comp, d, centre, kind):
         if m.n_components > 1 and rng.random() < 0.35:
             # lowering the active count is documented as non-destructive: later increments see the whole model
             m.n_active_components = int(rng.integers(1, m.n_components)) if rng.random() < 0.6 else float(rng.uniform(0.3, 0.9)) * m._total_variance_ratio()
-        m.increment(c.copy() if rng.random() < 0.5 else [row.copy() for row in c])
+        if longer and rng.random() < 0.5:
+            m.increment([row.copy() for row in c] + [row.copy() for row in X[:2]], n_samples=len(c))
+        else:
+            m.increment(c.copy() if rng.random() < 0.5 else [row.copy() for row in c])
     ctx.tap("sibling_model_untouched", "calls"); ctx.tap("sibling_model_untouched", "checked")
     if (not np.array_equal(sibling._components, sib_state[0]) or not np.array_equal(sibling._eigenvalues, sib_state[1])
             or not np.array_equal(sibling._mean, sib_state[2]) or sibling.n_samples != sib_state[3]):
@@ -202,7 +222,7 @@ def w_pca_exhaustive(ctx, rng, i):
     variant = i // len(ALL_COMPS)
     centre = bool(variant % 2 == 0)
     d = [3, 12][(variant // 2) % 2]                         # below and above n
-    kind = ["plain", "zero_column", "zero_mean_first_batch", "large_values", "integer_samples"][(variant // 4) % 5]
+    kind = ["plain", "zero_column", "zero_mean_first_batch", "large_values", "integer_samples", "small_values"][(variant // 4) % 6]
     run_pca(ctx, rng, comp, d, centre, kind)
     ctx.count_case(("pca", tuple(comp), centre, d, kind), nontrivial=True,
                    sample={"model": "PCA", "composition": comp, "centred": centre, "d": d, "data": kind} if i < 4 else None)
@@ -218,7 +238,7 @@ def w_pca_random(ctx, rng, i):
     cuts = sorted(rng.choice(np.arange(1, rest), size=min(k - 1, max(0, rest - 1)), replace=False).tolist()) if rest > 1 and k > 1 else []
     comp = [first] + [b - a for a, b in zip([0] + cuts, cuts + [rest])]
     centre = bool(rng.random() < 0.6)
-    kind = ["plain", "plain", "zero_column", "zero_mean_first_batch", "large_values", "integer_samples"][rng.integers(0, 6)]
+    kind = ["plain", "plain", "zero_column", "zero_mean_first_batch", "large_values", "integer_samples", "small_values"][rng.integers(0, 7)]
     m1, X = run_pca(ctx, rng, comp, d, centre, kind)
     # a different splitting of the same data agrees with the first one
     comp2 = [comp[0] + comp[1]] + comp[2:] if len(comp) > 2 else [max(2, n // 2), n - max(2, n // 2)]
@@ -229,7 +249,7 @@ def w_pca_random(ctx, rng, i):
         for a, b in zip(cuts2[1:-1], cuts2[2:]):
             m2.increment(X[a:b].copy())
         ctx.tap("split_vs_split", "calls"); ctx.tap("split_vs_split", "checked")
-        if m1.n_samples != m2.n_samples or _amax(m1._mean - m2._mean) > 1e-9 * max(1.0, np.abs(X).max()):
+        if m1.n_samples != m2.n_samples or _amax(m1._mean - m2._mean) > 1e-9 * max(1e-300, np.abs(X).max()):
             ctx.fail("two_splittings_of_the_same_data_disagree", cls="PCAVectorModel", mech="mean_or_count")
         elif m1.n_components == m2.n_components and _amax(m1._eigenvalues - m2._eigenvalues) > 1e-7 * m1._eigenvalues[0]:
             ctx.fail("two_splittings_of_the_same_data_disagree", cls="PCAVectorModel", mech="eigenvalues")
@@ -367,7 +387,7 @@ def w_gmrf_object(ctx, rng, i):
 
 
 WORKLOADS = [
-    Workload("pca_every_composition", w_pca_exhaustive, quick=len(ALL_COMPS) * 20, thorough=len(ALL_COMPS) * 20 * 20, exhaustive=True),
+    Workload("pca_every_composition", w_pca_exhaustive, quick=len(ALL_COMPS) * 24, thorough=len(ALL_COMPS) * 24 * 20, exhaustive=True),
     Workload("pca_random", w_pca_random, quick=400, thorough=20000),
     Workload("pca_object", w_pca_object, quick=100, thorough=3000),
     Workload("gmrf", w_gmrf, quick=576, thorough=20000),
